@@ -506,7 +506,7 @@ func runC17(r *core.Run) {
 		for i := 0; i < nops && r.Violations() < 10; i++ {
 			s.RandomOp(cfg)
 			if i == nops/2 && r.Violations() < 10 {
-				s.Directed() // floor: every kind of operation, and the hanging-melt-with-a-token-out pattern, once per history
+				s.Directed()        // floor: every kind of operation, and the hanging-melt-with-a-token-out pattern, once per history
 				s.DirectedDropped() // requests that never reach the mint (connection broken): nothing may be lost
 				if cfg.Rotate {
 					s.DirectedRotation() // and each kind once as the first operation after an unseen rotation
